@@ -345,6 +345,18 @@ void sim_client_reset(int cid, enum sim_reset_how how)
 	}
 }
 
+void sim_client_reset_escalate(int cid)
+{
+	struct sconn *c = conn_of(cid);
+	if (!c->reset) {
+		return;
+	}
+	c->reset_how = RST_EPOLL;
+	if (c->fd >= 0 && !c->daemon_closed) {
+		raise_edge(c->fd);
+	}
+}
+
 void sim_set_window(int cid, long window)
 {
 	struct sconn *c = conn_of(cid);
